@@ -78,6 +78,16 @@ func runC20(c *Ctx) error {
 	}
 	Parallel(len(mcs), func(i int) { c20Metrics(mruns[i], mcs[i].applied, mcs[i].outs, mcs[i].direct) })
 	c.AddStat("metrics_cases", len(mcs))
+	// the subscriber decorator at the grain of its goroutines: internal traces against SubDecorator.tla
+	TD := c.Trace("SubDecoratorTrace")
+	nd2 := c.Pick(150, 6000)
+	druns := make([]*tr.Run, nd2)
+	for i := range druns {
+		druns[i] = TD.NewRun("decorator-conformance", nil)
+		druns[i].Key = fmt.Sprintf("decorator-conformance/%d", i)
+	}
+	Parallel(nd2, func(i int) { subdecRun(druns[i], c.SubRng(1000+i)) })
+	c.AddStat("decorator_conformance_runs", nd2)
 	return nil
 }
 
